@@ -3,6 +3,7 @@
 #ifndef VERIF_GRAMMAR_REF_H
 #define VERIF_GRAMMAR_REF_H
 #include "grammar.h"
+#include "utf8_spec.h"
 static int ref_member (const unsigned char *b, int n)
 { int k; if (!G_MEMBER_GLOBAL (n)) return 0; for (k = 0; k < n; k++) if (!G_MEMBER_LOCAL (b, n, k)) return 0; return 1; }
 static int ref_interface (const unsigned char *b, int n)
@@ -14,4 +15,6 @@ static int ref_bus_name_full (const unsigned char *b, int n, int is_namespace)
   return b[0] == ':' || dot || is_namespace; }
 static int ref_path (const unsigned char *b, int n)
 { int k; if (n < 1) return 0; if (!G_PATH_GLOBAL (b, n)) return 0; for (k = 0; k < n; k++) if (!G_PATH_LOCAL (b, n, k)) return 0; return 1; }
+static int ref_utf8 (const unsigned char *b, int n)
+{ int k; for (k = 0; k < n; k++) if (!U8_LOCAL_OK (b, n, k)) return 0; return 1; }
 #endif
